@@ -102,6 +102,32 @@ def run_cell(cell, seed):
         tol = 1e-10 * G * max(float(x.abs().max()), 1e-300)
         okc, detail, ratio = util.compare('inverse(forward(x))[:H,:W]', y[..., :H, :W], util.np64(x), tol)
         out.append(res(HELD, case, 'M-RT', ratio=ratio) if okc else res(VIOLATED, case, 'M-RT', detail, ratio=ratio))
+    # the same pair of modules after the usual nn.Module precision conversion (built in float32, .double()
+    # for float64 images; built in float64, .float() for float32 images): still the same filters.  Taps that
+    # were rounded to float32 at construction keep that rounding after .double(), so "up to rounding" is the
+    # float32 tap precision (a few 1e-7 relative, measured) in both cases, not float64 arithmetic precision.
+    for build, conv, dt, eps in ((torch.float32, 'double', torch.float64, 1e-6), (torch.float64, 'float', torch.float32, 2e-4)):
+        case = {'cell': cell, 'input': 'randn', 'modules': 'built %s, converted with .%s()' % (str(build).replace('torch.', ''), conv)}
+        with util.default_dtype(build):
+            f2 = pw.DTCWTForward(biort=cell['biort'], qshift=cell['qshift'], J=cell['J'])
+            i2 = pw.DTCWTInverse(biort=cell['biort'], qshift=cell['qshift'])
+        f2, i2 = getattr(f2, conv)(), getattr(i2, conv)()
+        x = util.make_input('randn', [cell['N'], cell['C']] + sp, seed + 5, dt)
+        ok, pyr = util.call_lib(f2, x)
+        if not ok:
+            out.append(res(VIOLATED, case, 'M-RT', 'forward raised %r' % (pyr,)))
+            continue
+        ok, y = util.call_lib(i2, pyr)
+        if not ok:
+            out.append(res(VIOLATED, case, 'M-RT', 'inverse raised %r on the forward output' % (y,)))
+            continue
+        want = list(x.shape[:2]) + [H + H % 2, W + W % 2]
+        if list(y.shape) != want or y.dtype != dt:
+            out.append(res(VIOLATED, case, 'M-SHAPE', 'reconstruction %s %s, expected %s %s' % (list(y.shape), y.dtype, want, dt)))
+            continue
+        tol = eps * G * max(float(x.abs().max()), 1e-300)
+        okc, detail, ratio = util.compare('inverse(forward(x))[:H,:W]', y[..., :H, :W], util.np64(x), tol)
+        out.append(res(HELD, case, 'M-RT', ratio=ratio) if okc else res(VIOLATED, case, 'M-RT', detail, ratio=ratio))
     return out
 
 
